@@ -79,12 +79,40 @@ func (c verifCtx) Err() error {
 type verifSource2 struct {
 	bl     *PersistentBlockList
 	lock   *sync.RWMutex
+	store  *sync.Mutex // the syncer's store lock, once known: checked for the state snapshot / written pair
 	events []string
 }
 
-func (s *verifSource2) GetBlockReleaseWakeup() <-chan struct{} { return s.bl.GetBlockReleaseWakeup() }
-func (s *verifSource2) GetBlockPutWakeup() <-chan struct{}     { return s.bl.GetBlockPutWakeup() }
+// requireLocks: the documented locking contract of the persistent state source (engine only):
+// every call under the source lock (mutating calls under the write lock); the snapshot of the
+// state and the notification that it has been written both under the STORE lock, so that two
+// state writers cannot interleave (a writer that snapshots before taking the store lock may
+// have its stale file confirmed as "written" by the other writer's release bookkeeping).
+func (s *verifSource2) requireLocks(what string, write, store bool) {
+	if st := vnd.MutexState(s.lock); st >= 0 {
+		if write {
+			vnd.Assert(st == 2, "lock discipline: "+what+" called without holding the source write lock")
+		} else {
+			vnd.Assert(st >= 1, "lock discipline: "+what+" called without holding the source lock")
+		}
+	}
+	if store && s.store != nil {
+		if st := vnd.MutexState(s.store); st >= 0 {
+			vnd.Assert(st == 2, "lock discipline: "+what+" called without holding the store lock (state writers could interleave)")
+		}
+	}
+}
+
+func (s *verifSource2) GetBlockReleaseWakeup() <-chan struct{} {
+	s.requireLocks("GetBlockReleaseWakeup", false, false)
+	return s.bl.GetBlockReleaseWakeup()
+}
+func (s *verifSource2) GetBlockPutWakeup() <-chan struct{} {
+	s.requireLocks("GetBlockPutWakeup", false, false)
+	return s.bl.GetBlockPutWakeup()
+}
 func (s *verifSource2) NotifySyncStarting(final bool) {
+	s.requireLocks("NotifySyncStarting", true, false)
 	if final {
 		s.events = append(s.events, "start-final")
 	} else {
@@ -93,14 +121,17 @@ func (s *verifSource2) NotifySyncStarting(final bool) {
 	s.bl.NotifySyncStarting(final)
 }
 func (s *verifSource2) NotifySyncCompleted() {
+	s.requireLocks("NotifySyncCompleted", true, false)
 	s.events = append(s.events, "completed")
 	s.bl.NotifySyncCompleted()
 }
 func (s *verifSource2) GetPersistentState() (uint32, []*pb.BlockState) {
+	s.requireLocks("GetPersistentState", false, true)
 	s.events = append(s.events, "getstate")
 	return s.bl.GetPersistentState()
 }
 func (s *verifSource2) NotifyPersistentStateWritten() {
+	s.requireLocks("NotifyPersistentStateWritten", true, true)
 	s.events = append(s.events, "written")
 	s.bl.NotifyPersistentStateWritten()
 }
@@ -163,6 +194,7 @@ func verifNewSyncerRig() *verifSyncerRig {
 		r.src.events = append(r.src.events, "sync-ok")
 		return nil
 	})
+	r.src.store = &r.ps.storeLock
 	return r
 }
 
@@ -265,5 +297,16 @@ func verifScenarioProcessBlockRelease() {
 		vnd.Assert(r.x.pend[i].releases == 1, "a block awaiting release was not released after the state write")
 	}
 	vnd.Assert(len(bl.blocksToRelease) == 0 && bl.blockReleaseWakeup.isBlocking, "release wake-up not disarmed although nothing awaits release")
+	verifWrittenOnlyAfterSuccess(r.src.events)
 	verifPBLInvariant(bl, "after ProcessBlockRelease")
+}
+
+// verifWrittenOnlyAfterSuccess: the list is told "the state has been written" (which makes
+// released blocks reusable) only directly after a state write that SUCCEEDED, once per write.
+func verifWrittenOnlyAfterSuccess(events []string) {
+	for i, e := range events {
+		if e == "written" {
+			vnd.Assert(i > 0 && events[i-1] == "write-ok", "the block list was told that the state has been written although the last state write had not (just) succeeded: released blocks become reusable while the file on disk still lists them")
+		}
+	}
 }
